@@ -1302,8 +1302,81 @@ pub fn c16_laws_pub(ctx: &mut Ctx, s: &str, only: Option<Vec<i64>>) {
     }
 }
 
+
+/// Collections in which values of *different* truthiness that look alike (0 and "0", false and
+/// "false", null and "null", [] and "", [0] and 0, 1 and 1.0) sit next to and far from each other,
+/// at lengths on both sides of any plausible "long input" threshold. One decision per element:
+/// a verdict remembered per element (by its text, its number, its length) goes wrong only here.
+fn c06_mixed_collections(ctx: &mut Ctx) {
+    let corner: Vec<Value> = ["0", "\"0\"", "false", "\"false\"", "null", "\"null\"", "[]", "\"\"", "[0]", "[[]]", "[\"\"]", "[null]", "{}", "\"[object Object]\"", "1", "1.0", "\"1\"", "true", "\"true\"",
+        "-0.0", "\"-0\"", "0.0", "\"0.0\"", "\" \"", "1e-320", "\"NaN\"", "[false]", "\"a\"", "[1]", "\"1,2\"", "[1,2]", "{\"a\":1}", "0e0", "\"\\u0000\""].iter().map(|t| parse(t)).collect();
+    let lens: &[usize] = if ctx.thorough() { &[8, 31, 32, 33, 64, 100, 257, 1000, 5000] } else { &[8, 31, 32, 33, 64, 100, 257, 1000] };
+    let mut idx = 0u64;
+    for &len in lens {
+        for arrangement in 0..4u64 {
+            idx += 1;
+            if !ctx.mine(idx) {
+                continue;
+            }
+            let mut arr: Vec<Value> = Vec::with_capacity(len);
+            match arrangement {
+                0 => (0..len).for_each(|i| arr.push(corner[i % corner.len()].clone())), // look-alikes adjacent, in corpus order
+                1 => (0..len).for_each(|i| arr.push(corner[(len - 1 - i) % corner.len()].clone())), // reversed: the string before the value
+                2 => (0..len).for_each(|_| arr.push(ctx.rng.pick(&corner).clone())),
+                _ => {
+                    // one look-alike far behind its twin: a run of one value, the twin at the very end
+                    let k = ctx.rng.below(corner.len() / 2) * 2;
+                    (0..len - 1).for_each(|_| arr.push(corner[k].clone()));
+                    arr.push(corner[(k + 1) % corner.len()].clone());
+                }
+            }
+            let want: Vec<bool> = arr.iter().map(refsem::truthy).collect();
+            let data = json!({ "c": arr });
+            let c = var("c");
+            let rules: Vec<(&str, Value)> = vec![
+                ("filter", json!({"filter": [c, var("")]})),
+                ("filter-not", json!({"filter": [c, {"!": [var("")]}]})),
+                ("map-bool", json!({"map": [c, {"!!": [var("")]}]})),
+                ("map-if", json!({"map": [c, {"if": [var(""), 1, 0]}]})),
+                ("map-and", json!({"map": [c, {"and": [var(""), "M"]}]})),
+                ("all", json!({"all": [c, var("")]})),
+                ("some", json!({"some": [c, var("")]})),
+                ("none", json!({"none": [c, var("")]})),
+                ("count", json!({"reduce": [c, {"+": [var("accumulator"), {"if": [var("current"), 1, 0]}]}, 0]})),
+                ("filter-literal", json!({"filter": [arr, var("")]})),
+            ];
+            for (name, rule) in rules.iter() {
+                let (obs, _) = ctx.check("c06.model", rule, &data);
+                // the table applied element by element, without the model
+                let expect: Option<Value> = match *name {
+                    "filter" | "filter-literal" => Some(Value::Array(arr.iter().zip(want.iter()).filter(|(_, w)| **w).map(|(v, _)| v.clone()).collect())),
+                    "filter-not" => Some(Value::Array(arr.iter().zip(want.iter()).filter(|(_, w)| !**w).map(|(v, _)| v.clone()).collect())),
+                    "map-bool" => Some(Value::Array(want.iter().map(|w| json!(*w)).collect())),
+                    "map-if" => Some(Value::Array(want.iter().map(|w| json!(if *w { 1 } else { 0 })).collect())),
+                    "all" => Some(json!(want.iter().all(|w| *w))),
+                    "some" => Some(json!(want.iter().any(|w| *w))),
+                    "none" => Some(json!(!want.iter().any(|w| *w))),
+                    "count" => Some(json!(want.iter().filter(|w| **w).count())),
+                    _ => None,
+                };
+                if let Some(e) = expect {
+                    ctx.mon("c06.table").observed += 1;
+                    ctx.mon("c06.table").judged += 1;
+                    let ok = matches!(&obs.out, Outcome::Ok(r) if r.to_string() == e.to_string());
+                    if !ok {
+                        ctx.violation("c06.table", &format!("mixed-collection:{}:len{}", name, if len >= 32 { "32+" } else { "<32" }), rule, &crate::ctx::shallow(&data), json!({"element decisions": "the table, element by element"}), obs.out.brief(), "a decision over a collection of look-alike values disagrees with the truthiness table applied to each element");
+                    }
+                }
+            }
+            ctx.mark_nontrivial_key(&format!("c06:mixed:{}:{}", len, arrangement));
+            ctx.cell("mixed-collection");
+        }
+    }
+}
+
 pub fn c06(ctx: &mut Ctx) {
     c06_core(ctx);
+    c06_mixed_collections(ctx);
     crate::props_sizes::c06(ctx);
     crate::props_far::c06(ctx);
     crate::props_far::c06_wide(ctx);
